@@ -4,7 +4,6 @@ CONSTANTS
   NS = 2
   Part = "abs"
   MaxIdx = 2
-  Expand <- MCExpand
 INVARIANT TypeOK
 INVARIANT InvPartial
 INVARIANT InvConfluent
